@@ -1,7 +1,7 @@
 \* C07/C08 leg A quick: stored names {a,b} x value {x}, <=1 series; external labels over {a,r} with
 \* values {x,e} (a="x" collides with equal value, a="e" with a different one); replica lists over
 \* {a,r}; <=1 matcher over {a,b,r} of all four types; one slot, one time range; one block; all five
-\* store kinds (sidecar with three option sets, receiver with tenants x,e and tenant label r).
+\* store kinds (sidecar with two option sets, receiver with tenants x,e and tenant label r).
 SPECIFICATION Spec
 CONSTANTS SNames = {"a", "b"}
           SVals = {"x"}
@@ -9,7 +9,7 @@ CONSTANTS SNames = {"a", "b"}
           EVals = {"x", "e"}
           RNames = {"a", "r"}
           MNames = {"a", "b", "r"}
-          MVals = {"x", "e"}
+          MVals = {"x"}
           AltSeqs <- MC_AltOne
           MaxSeries = 1
           MaxMatchers = 1
@@ -18,7 +18,7 @@ CONSTANTS SNames = {"a", "b"}
           TwoBlocks = FALSE
           W = 7200000
           KindSet = {"tsdb", "bucket", "proxy", "prom", "recv"}
-          PromOpts <- MC_PromOptsFew
+          PromOpts <- MC_PromOptsTwo
           TLabel = "r"
           TenantIds = {"x", "e"}
 INVARIANTS C08_ExtLabelsOverride C08_ContradictionEmpty C08_AllContradictedNothing C08_PresentRefines
